@@ -1035,7 +1035,15 @@ def nan_default(a=NAN, *, k: NAN = NAN): pass
 class M:
     def meth(self, q: NAN) -> float('nan'): pass
 m = M()
-NAMES = ['nan_eager', 'nan_default', 'M.meth', 'm.meth']
+class NeverEqual:
+    def __eq__(self, other): return False
+    def __ne__(self, other): return True
+    __hash__ = object.__hash__
+NEVER = NeverEqual()
+def nan_ret() -> NAN: pass
+def nan_ret_params(a, b=2, *args, k=3, **kw) -> NAN: pass
+def never_ret(a=1) -> NEVER: pass
+NAMES = ['nan_eager', 'nan_default', 'M.meth', 'm.meth', 'nan_ret', 'nan_ret_params', 'never_ret']
 '''
 
 # Section W (harness only, OUTSIDE the model's value domain: the model interns evaluated
@@ -1352,6 +1360,16 @@ def bound_eq_bad(sig, what, limit=12):
     return bad
 
 
+def _same_values(x, y):
+    pairs = [(x.upgraded_return_annotation, y.upgraded_return_annotation)]
+    for nm_, p in x.parameters.items():
+        pairs.append((p.upgraded_annotation, y.parameters[nm_].upgraded_annotation))
+    for a, b in pairs:
+        if a.source_value() is not b.source_value():
+            return False
+    return True
+
+
 def decide_fresh(modname, nm):
     """Section F on one named object.  -> (n_checks, [(key, what)])"""
     x, insp = fresh_get(modname, nm)
@@ -1379,6 +1397,27 @@ def decide_fresh(modname, nm):
     for lab, b in partners:
         bad += [(k, '%s vs %s: %s' % (what, lab, w)) for k, w in decide_pair(x, b, False)[1]]
         n += 4
+    # two retrievals whose plain counterparts are equal and whose upgraded annotations denote the IDENTICAL
+    # objects carry the same data: they must be equal, like the plain objects (whose tuple comparison
+    # tries identity first), also when the shared value is not equal to itself (NaN, a never-equal object)
+    # -- seeded change C14-m13 dropped the identity test of the evaluated values
+    try:
+        same_plain = (plain_sig_of(x) == plain_sig_of(y)) is True
+        same_vals = same_plain and _same_values(x, y)
+    except Exception:  # noqa: BLE001
+        same_vals = False
+    if same_vals:
+        n += 4
+        for lab, b in (('second retrieval', y), ('x.replace(upgraded_return_annotation=<the same value>)',
+                                                 x.replace(upgraded_return_annotation=y.upgraded_return_annotation))):
+            try:
+                eq, ne = (x == b), (x != b)
+            except Exception as e:  # noqa: BLE001
+                bad.append(('C14:same-data-unequal', '%s vs %s: comparison raised %s' % (what, lab, type(e).__name__)))
+                continue
+            if eq is not True or ne is not False:
+                bad.append(('C14:same-data-unequal', '%s vs %s: == gives %r and != gives %r although the plain inspect.Signature '
+                            'counterparts are equal and every upgraded annotation denotes the identical object' % (what, lab, eq, ne)))
     bad += bound_eq_bad(x, what)
     n += 12
     return n, bad
